@@ -11,6 +11,8 @@ identical element lists), raises nothing, and afterwards every pattern used comp
 fresh uncached parse.
 """
 from __future__ import annotations
+import collections
+import copy
 import itertools
 import os
 import warnings
@@ -33,6 +35,7 @@ MATCH_OPS = [('select', 'p:lang(en)', None), ('match', ':default', None), ('filt
              # does to process-wide interpreter settings while handling it is shared by all threads)
              ('match-input-1', ':in-range', None), ('match-input-2', ':out-of-range', None), ('match-input-3', ':in-range', None),
              ('cmatch-input-1', ':in-range', None), ('cmatch-input-2', ':out-of-range', None), ('cmatch-input-3', ':in-range', None)]
+LEVEL_NOW = [600]       # how many names reset() pushes (WARM unless a capacity cliff was found, see cliff_levels)
 WARM = 600      # distinct names pushed through util.lower before every execution: its cache (bound 512) is full, as in a long-lived process
 
 
@@ -109,13 +112,26 @@ def observe(sv, op, r, doc):
 
 
 def reset(sv):
+    caches, saved = pristine(sv)
+    for b, was in saved:
+        if b != was:
+            if isinstance(b, list):
+                b[:] = was
+            else:
+                b.clear()
+                b.update(was) if not isinstance(b, (bytearray, collections.deque)) else b.extend(was)
+    for c in caches:
+        try:
+            c.cache_clear()
+        except Exception:
+            pass
     sv.purge()
     try:
         sv.util.lower.cache_clear()
     except Exception:
         pass
     low = sv.util.lower
-    for i in range(WARM):
+    for i in range(LEVEL_NOW[0]):
         low('W%d' % i)
     try:
         sv.css_parser.process_custom.cache_clear()    # only exists if somebody cached it
@@ -123,10 +139,9 @@ def reset(sv):
         pass
 
 
-def make_watch(sv):
-    """Cheap digest of the shared state visible from outside: every lru_cache in the package (hits, misses, size), the sizes of module-level and
-    default-argument containers, class-level containers, and the interpreter settings.  Found by scanning the loaded modules, so caches or scratch
-    containers a change introduces are watched too."""
+def discover(sv):
+    """-> (caches, boxes): every lru_cache and every mutable container reachable as a module-level name, a class attribute, a default argument
+    or a closure cell of the loaded soupsieve modules.  Found by scanning, so caches or scratch containers a change introduces are included."""
     import sys
     import types
     caches, boxes = [], []
@@ -134,13 +149,22 @@ def make_watch(sv):
     mods = [m for n, m in sorted(sys.modules.items()) if (n == 'soupsieve' or n.startswith('soupsieve.')) and m is not None]
 
     def box(x):
-        if isinstance(x, (dict, list, set, bytearray)) and id(x) not in seen:
+        if isinstance(x, (dict, list, set, bytearray, collections.deque)) and id(x) not in seen:
             seen.add(id(x))
             boxes.append(x)
 
     def func(f):
+        if f is None:
+            return
         for dflt in (getattr(f, '__defaults__', None) or ()) + tuple((getattr(f, '__kwdefaults__', None) or {}).values()):
             box(dflt)
+        for cell in getattr(f, '__closure__', None) or ():
+            try:
+                box(cell.cell_contents)
+            except ValueError:
+                pass
+        for v in vars(f).values() if hasattr(f, '__dict__') else ():
+            box(v)
     for m in mods:
         for name, v in list(vars(m).items()):
             if name.startswith('__'):
@@ -163,7 +187,50 @@ def make_watch(sv):
                         box(av)
             else:
                 box(v)
+    return caches, boxes
 
+
+def cliff_levels(sv):
+    """A home-grown bounded memo (a dict that is cleared or trimmed when it reaches a size) behaves differently right at its capacity.  Push names
+    through util.lower one at a time from the pristine state; if a watched container ever shrinks, return the fill levels around that point
+    (the executions are then explored once per level).  With functools.lru_cache nothing shrinks and the answer is [WARM]."""
+    caches, saved = pristine(sv)
+    boxes = [b for b, _ in saved]
+    LEVEL_NOW[0] = 0
+    reset(sv)
+    low = sv.util.lower
+    prev = [len(b) for b in boxes]
+    for i in range(2 * WARM):
+        low('W%d' % i)
+        cur = [len(b) for b in boxes]
+        if any(c < p_ for c, p_ in zip(cur, prev)):
+            LEVEL_NOW[0] = WARM
+            return [max(i - 2, 0), max(i - 1, 0), i, WARM]
+        prev = cur
+    LEVEL_NOW[0] = WARM
+    return [WARM]
+
+
+_PRISTINE = None
+
+
+def pristine(sv):
+    """The containers as they are right after import, captured before the library is exercised in this process (the parent captures them before
+    the workers are forked; a replay captures them before its first call).  reset() puts them back before every execution, so that an execution
+    is a function of its schedule alone whatever ran earlier in the process."""
+    global _PRISTINE
+    if _PRISTINE is None:
+        caches, boxes = discover(sv)
+        _PRISTINE = (caches, [(b, copy.copy(b)) for b in boxes])
+    return _PRISTINE
+
+
+def make_watch(sv):
+    """Cheap digest of the shared state visible from outside: every lru_cache in the package (hits, misses, size), the sizes of the containers found
+    by discover(), and two interpreter settings."""
+    import sys
+    caches, saved = pristine(sv)
+    boxes = [b for b, _ in saved]
     infos = [c.cache_info for c in caches]
     g1, g2 = sys.get_int_max_str_digits, sys.getrecursionlimit
 
@@ -304,6 +371,8 @@ def pairs(tier):
 
 
 def shards(tier, seed):
+    from .. import common
+    pristine(common.bind())         # before the workers are forked and before anything is compiled
     out = []
     for pi, (ops, bound, opcode) in enumerate(pairs(tier)):
         if bound >= 2:
@@ -330,6 +399,7 @@ def run_shard(desc):
     tier, pi, first_dev = desc
     ops, bound, opcode = pairs(tier)[pi]
     res = shard.Result()
+    levels = cliff_levels(sv)
     h = Harness(sv, ops, opcode)
     replay_every = 97
     counter = [0]
@@ -345,11 +415,29 @@ def run_shard(desc):
             # next, so only the observations (not the number of scheduling points) must repeat there
             if again.results != ex.results or (not opcode and again.choices != ex.choices):
                 nondet.append((list(ex.choices), str(ex.results)[:200], str(again.results)[:200]))
-    st = sched.explore(h.run, h.check, bound, first_dev=first_dev, on_execution=on_execution,
-                       max_executions=400000)
+    st = None
+    for level in levels:
+        LEVEL_NOW[0] = level
+        st1 = sched.explore(h.run, h.check, bound, first_dev=first_dev, on_execution=on_execution, max_executions=400000)
+        for f in st1['failures']:
+            f[1][0]['fill_level'] = level
+        if st is None:
+            st = st1
+        else:
+            for k in ('executions', 'choice_points'):
+                st[k] += st1[k]
+            st['failures'] += st1['failures']
+            st['capped'] = st['capped'] or st1['capped']
+            st['max_points'] = max(st['max_points'], st1['max_points'])
+        if st['failures']:
+            break
+    if len(levels) > 1:
+        res.count('tuples_explored_at_several_fill_levels', 1)
+    if not st['failures']:
+        LEVEL_NOW[0] = WARM
     # second pass: two preemptions, both next to a line that writes watched shared state (conflict-directed; see make_watch).  quick: only
     # where the number of such points keeps the pass small; thorough: every tuple explored at bound 1
-    HOT_LIMIT = 35 if tier == 'quick' else 120
+    HOT_LIMIT = 35 if tier == 'quick' else 70
     if bound == 1 and not opcode and not st['failures'] and first_dev is None:
         # the precompiled matches exist for this pass (short threads): they always get it
         if h.hot_points and (h.hot_points <= HOT_LIMIT or all(o[0].startswith('cmatch') for o in ops)):
@@ -375,7 +463,8 @@ def run_shard(desc):
         res.extra['harness_error'] = f'non-deterministic replay for ops {ops}: {nondet[0]}'
     for choices, (sig, detail) in st['failures'][:3]:
         sig = dict(sig, threads=len(ops), same_pattern=len({o[1] for o in ops}) == 1)
-        res.fail({'pair': pi, 'tier': tier, 'ops': [list(o) for o in ops], 'choices': choices, 'opcode': opcode}, sig,
+        level = sig.pop('fill_level', WARM) if isinstance(sig, dict) else WARM
+        res.fail({'pair': pi, 'tier': tier, 'ops': [list(o) for o in ops], 'choices': choices, 'opcode': opcode, 'fill_level': level}, dict(sig, at_capacity_cliff=level != WARM),
                  f'{[o[0] + "(" + o[1] + ")" for o in ops]} schedule with {sum(1 for c in choices if c)} deviation(s): {detail}')
     if pi % 9 == 0 and first_dev in (None, (0, 30)):
         res.sample({'threads': [o[0] + '(' + repr(o[1]) + ')' for o in ops], 'preemption_bound': bound, 'schedules': st['executions'],
@@ -388,7 +477,9 @@ def replay(case):
     sv = common.bind()
     warnings.simplefilter('ignore')
     ops = [tuple(o) for o in case['ops']]
+    pristine(sv)
     h = Harness(sv, ops, case.get('opcode', False))
+    LEVEL_NOW[0] = case.get('fill_level', WARM)
     ex1 = h.run(case['choices'])
     ex2 = h.run(case['choices'])
     f = h.check(ex1)
@@ -410,7 +501,7 @@ def check(tier, seed):
                  'two schedules exist; a fixed fraction of schedules is replayed a second time to confirm determinism'),
         'schedules': sch, 'replayed_twice': res.counters.get('replayed_twice', 0),
         'operation_tuples': len(pairs(tier)), 'preemption_bound_completed': ('1 (all tuples); 2 with both preemptions next to a line that writes watched shared state (tuples with <= 35 such points)' if tier == 'quick'
-                                                else '1 (all tuples); 2 next to writers of watched shared state (tuples with <= 120 such points); 2 unrestricted (core compile pairs)'),
+                                                else '1 (all tuples); 2 next to writers of watched shared state (tuples with <= 70 such points); 2 unrestricted (core compile pairs)'),
         'threads': 2 if tier == 'quick' else '2 and 3', 'granularity': 'source line' if tier == 'quick' else 'source line; opcode inside tokenizer functions',
         'schedules_two_preemptions_at_conflicts': res.counters.get('schedules_two_preemptions_at_conflicts', 0),
         'tuples_with_conflict_pass': res.counters.get('tuples_with_conflict_pass', 0), 'tuples_without_conflict_pass': res.counters.get('tuples_without_conflict_pass', 0),
